@@ -458,4 +458,86 @@ theorem answers_refine (s : Reg) (t : Abs) (ops : List Op) (h : Inv s) (r : Refi
     | store o c => simpa only [answers, absAnswers] using ih'
     | clear o => simpa only [answers, absAnswers] using ih'
 
+
+/-! ### the abstract registry: objects not yet allocated are dead and have no context -/
+
+def AbsInv (t : Abs) : Prop := ∀ o, t.next ≤ o → t.alive o = false ∧ t.ctx o = none
+
+theorem absInv_init : AbsInv {} := by intro o _; exact ⟨rfl, rfl⟩
+
+theorem absInv_step (t : Abs) (op : Op) (h : AbsInv t) : AbsInv (absStep t op) := by
+  have hdead : ∀ o, t.alive o = true → o < t.next := by
+    intro o ho
+    apply Classical.byContradiction
+    intro hn
+    have := (h o (by omega)).1
+    rw [this] at ho
+    cases ho
+  cases op with
+  | alloc a =>
+    simp only [absStep]
+    split
+    · exact h
+    · intro o ho
+      dsimp only at ho ⊢
+      have hne : o ≠ t.next := by omega
+      simp only [hne, if_false]
+      exact h o (by omega)
+  | free x =>
+    simp only [absStep]
+    split
+    · intro o ho
+      dsimp only at ho ⊢
+      have := h o ho
+      split <;> simp [this]
+    · exact h
+  | freeQuiet x =>
+    simp only [absStep]
+    split
+    · intro o ho
+      dsimp only at ho ⊢
+      have := h o ho
+      split <;> simp [this]
+    · exact h
+  | store x c =>
+    simp only [absStep]
+    split
+    · rename_i hx
+      intro o ho
+      dsimp only at ho ⊢
+      have hlt := hdead x hx
+      have hne : o ≠ x := by omega
+      simp only [hne, if_false]
+      exact h o ho
+    · exact h
+  | get x => exact h
+  | clear x =>
+    simp only [absStep]
+    split
+    · intro o ho
+      dsimp only at ho ⊢
+      have := h o ho
+      split <;> simp [this]
+    · exact h
+
+theorem absInv_run (t : Abs) (ops : List Op) (h : AbsInv t) : AbsInv (absRun t ops) := by
+  induction ops generalizing t with
+  | nil => exact h
+  | cons op ops ih => exact ih _ (absInv_step t op h)
+
+theorem absAnswers_append (t : Abs) (ops more : List Op) :
+    absAnswers t (ops ++ more) = absAnswers t ops ++ absAnswers (absRun t ops) more := by
+  induction ops generalizing t with
+  | nil => rfl
+  | cons op ops ih =>
+    cases op <;> simp [absAnswers, absRun, ih]
+
+/-- a newly created object has no context, whatever its address was used for before -/
+theorem abs_new_object_clean (t : Abs) (h : AbsInv t) (a : Nat) :
+    absAnswers t [.alloc a, .get t.next] = [none] := by
+  simp only [absAnswers, absStep]
+  split
+  · simp [(h t.next (Nat.le_refl _)).1]
+  · simp [(h t.next (Nat.le_refl _)).2]
+
 end Nima.Registry
